@@ -132,6 +132,15 @@ def check_case(case, seed_key, res, tier):
         res.count('out_of_domain')
         return
     av, ref, scale = r
+    for s_ in simp:
+        stack, seen = [s_], set()
+        while stack and len(seen) < 200:
+            x = stack.pop()
+            if id(x) in seen or not isinstance(x, ev.Evaluable):
+                continue
+            seen.add(id(x))
+            res.add('classes', type(x).__name__)
+            stack.extend(x.dependencies)
     nontrivial = evgen.ninner(case) >= 3
     for j, (o, (values, indices, shape), chk, dense) in enumerate(zip(outs, sparse, chunks, ref)):
         kind = case['nodes'][case['outputs'][j]]['kind']
@@ -320,9 +329,6 @@ def run_units(units, ctx):
                 except Exception as e:
                     res.count('fem_construction_failed')
                     res.note(f'fem case {i}: {type(e).__name__}: {str(e)[:200]}')
-    for k, v in evmon.RULES_FIRED.items():
-        if k.endswith('._assparse'):
-            res.count('assparse_rule/' + k, v)
     return res
 
 
@@ -347,7 +353,7 @@ def finalize(m, tier, seed):
                chunks_checked=c.get('chunks_checked', 0), csr_checked=c.get('csr_checked', 0), csr_assembled=c.get('csr_assembled', 0),
                fem=dict(coo=c.get('fem_coo_checked', 0), csr=c.get('fem_csr_checked', 0), truly_sparse=c.get('fem_truly_sparse', 0), construction_failed=c.get('fem_construction_failed', 0),
                         kinds={k[4:]: v for k, v in c.items() if k.startswith('fem/')}),
-               assparse_rules_fired={k[14:]: v for k, v in c.items() if k.startswith('assparse_rule/')},
+               node_classes_in_sparse_programs=sorted(m.sets.get('classes', ()))[:80],
                skipped_c01_event=c.get('skipped_c01_event', 0), out_of_domain=c.get('out_of_domain', 0), rejected_constructions=c.get('rejected_constructions', 0),
                inconclusive_wall=c.get('inconclusive_wall', 0), skipped_deadline=c.get('skipped_deadline', 0))
     inc = None
@@ -357,6 +363,4 @@ def finalize(m, tier, seed):
         inc = 'too few truly sparse / CSR cases'
     elif cov['fem']['coo'] < 20:
         inc = 'too few FEM integrals'
-    elif len(cov['assparse_rules_fired']) < 8:
-        inc = 'too few _assparse rules exercised'
     return dict(coverage=cov, inconclusive=inc)
